@@ -196,7 +196,7 @@ func runMutants(id, repo, root string) *sensitivity {
 }
 
 // refactorKinds are the behaviour-preserving transformations of refactor.go.
-var refactorKinds = []string{"rename-locals", "shift-lines", "swap-operands", "invert-if", "hoist-init", "wrap-else", "add-calls", "split-and", "split-or", "extract-cond"}
+var refactorKinds = []string{"rename-locals", "shift-lines", "swap-operands", "invert-if", "hoist-init", "wrap-else", "add-calls", "split-and", "split-or", "extract-cond", "if-to-switch", "switch-to-if"}
 
 // runRefactorings is the converse self-test: each behaviour-preserving transformation is applied to a
 // scratch copy of the current tree and the quick rules are run on it; any report that the
